@@ -28,6 +28,12 @@ func Sign(ctx context.Context, rsfBytes []byte, r io.Reader, cert *certloader.Ce
 	if err := binary.Read(bytes.NewReader(rsfBytes), binary.BigEndian, &rsf); err != nil {
 		return nil, nil, fmt.Errorf("udif header: %w", err)
 	}
+	if rsf.Signature != udifSignature {
+		return nil, nil, errors.New("dmg file magic not found")
+	}
+	if rsf.XMLOffset < 0 || rsf.XMLLength < 0 || rsf.XMLOffset+rsf.XMLLength < 0 || rsf.SignatureLength < 0 {
+		return nil, nil, errors.New("invalid offsets in udif header")
+	}
 	nr := &counter{r: r}
 	bundleSize := rsf.XMLOffset + rsf.XMLLength
 	oldOffset, oldLength := rsf.SignatureOffset, rsf.SignatureLength
@@ -56,6 +62,9 @@ func Sign(ctx context.Context, rsfBytes []byte, r io.Reader, cert *certloader.Ce
 		return nil, nil, err
 	}
 	oldSize := nr.n
+	if rsf.SignatureOffset > oldSize {
+		return nil, nil, errors.New("udif header points beyond the end of the image")
+	}
 	// generate patch
 	rsf.SignatureLength = int64(len(blob))
 	var b bytes.Buffer
